@@ -12,14 +12,15 @@
 
 use std::cell::RefCell;
 use std::collections::BTreeSet;
+use std::future::Future;
 use std::rc::Rc;
 
 use fe2o3_amqp::acceptor::{LinkAcceptor, LinkEndpoint, SessionAcceptor};
 use fe2o3_amqp::transaction::coordinator::ControlLinkAcceptor;
-use fe2o3_amqp::transaction::{Controller, Transaction, TransactionDischarge, TransactionPosting};
+use fe2o3_amqp::transaction::{Controller, Transaction, TransactionDischarge, TransactionPosting, TransactionRetirement};
 use fe2o3_amqp::types::messaging::{AmqpValue, Body};
 use fe2o3_amqp::types::primitives::{Binary, Value};
-use fe2o3_amqp::{Sender, Session};
+use fe2o3_amqp::{Receiver, Sender, Session};
 
 use crate::chooser::{choice, pick};
 use crate::msgs::{self, Msg};
@@ -52,7 +53,48 @@ enum TxnFate {
 struct TxnModel {
     controller: usize,
     posts: Vec<(usize, u64)>, // (link, uid) in posting order
+    /// deliveries of the feed link retired under this transaction: (uid, outcome name)
+    retires: Vec<(u64, &'static str)>,
     fate: TxnFate,
+}
+
+/// What the listener's sending application has learnt about its deliveries: uid -> resolved outcome
+type FeedOutcomes = Rc<RefCell<Vec<(u64, String)>>>;
+
+fn feed_outcome_of(f: &FeedOutcomes, uid: u64) -> Option<String> {
+    f.borrow().iter().find(|x| x.0 == uid).map(|x| x.1.clone())
+}
+
+/// Retirements are part of the transaction's work: the sender must learn of none of them before the
+/// discharge, of all of them (with the outcome that was given) after a commit, of none after a rollback
+fn check_retirements(feed: &FeedOutcomes, m: &TxnModel, phase: &str) -> bool {
+    for (uid, want) in &m.retires {
+        let got = feed_outcome_of(feed, *uid);
+        match phase {
+            "before" | "rolled-back" | "abandoned" => {
+                if let Some(g) = got {
+                    if !g.starts_with("Err") {
+                        sim::violation(
+                            if phase == "before" { "retirement-applied-before-discharge" } else { "retirement-applied-without-commit" },
+                            format!("delivery {} was retired ({}) under a transaction ({}); the sending application already has the outcome {}", uid, want, phase, g),
+                        );
+                        return false;
+                    }
+                }
+            }
+            _ => match got {
+                Some(g) if g.contains(want) => {}
+                other => {
+                    sim::violation(
+                        "retirement-not-applied-after-commit",
+                        format!("delivery {} was retired ({}) under a transaction that committed; the sending application has {:?}", uid, want, other),
+                    );
+                    return false;
+                }
+            },
+        }
+    }
+    true
 }
 
 type Delivered = Rc<RefCell<Vec<(usize, u64)>>>;
@@ -71,7 +113,10 @@ pub async fn run_pair() {
     let (nab, nba, nd) = world::draw_net(false);
     let n_ctrl = 1 + choice(2) as usize;
     let end_with_session = choice(4) == 0;
-    sim::set_config(format!("variant=pair controllers={} max-frame-size={} end-with-live-txns-by-session-end={} {}", n_ctrl, mfs, end_with_session, nd));
+    // a third link in the other direction: the listener sends, the client receives and retires
+    // deliveries under its transactions
+    let n_feed = pick(&[0u64, 3, 6]);
+    sim::set_config(format!("variant=pair controllers={} max-frame-size={} end-with-live-txns-by-session-end={} feed={} {}", n_ctrl, mfs, end_with_session, n_feed, nd));
     sim::mark_nontrivial();
     sim::set_panic_is_violation(true);
     let mut models = Models::none();
@@ -96,14 +141,49 @@ pub async fn run_pair() {
     let delivered: Delivered = Rc::new(RefCell::new(Vec::new()));
     let recv_errors: Rc<RefCell<Vec<String>>> = Rc::new(RefCell::new(Vec::new()));
     let lsess_done: Slot<String> = Slot::new();
+    let feed: FeedOutcomes = Rc::new(RefCell::new(Vec::new()));
     {
         let (del, errs, ld) = (delivered.clone(), recv_errors.clone(), lsess_done.clone());
+        let feed2 = feed.clone();
         sim::spawn(
             "listener-session",
             sim::in_group(2, async move {
                 let la = LinkAcceptor::new();
-                for _ in 0..2 {
+                for _ in 0..(if n_feed > 0 { 3 } else { 2 }) {
                     match la.accept(&mut lsess).await {
+                        Ok(LinkEndpoint::Sender(mut s)) => {
+                            let feed3 = feed2.clone();
+                            sim::spawn("listener-feed", async move {
+                                let mut futs = Vec::new();
+                                for k in 0..n_feed {
+                                    let uid = 9000 + k;
+                                    match s.send_batchable(message(uid, false)).await {
+                                        Ok(f) => futs.push((uid, f)),
+                                        Err(_) => break,
+                                    }
+                                }
+                                // outcomes in whatever order they come
+                                let mut pending: Vec<_> = futs.into_iter().map(|(uid, f)| (uid, Box::pin(f))).collect();
+                                while !pending.is_empty() {
+                                    let (uid, r) = std::future::poll_fn(|cx| {
+                                        for i in 0..pending.len() {
+                                            if let std::task::Poll::Ready(r) = pending[i].1.as_mut().poll(cx) {
+                                                let (uid, _) = pending.remove(i);
+                                                return std::task::Poll::Ready((uid, r));
+                                            }
+                                        }
+                                        std::task::Poll::Pending
+                                    })
+                                    .await;
+                                    feed3.borrow_mut().push((uid, match r {
+                                        Ok(o) => format!("{:?}", o),
+                                        Err(e) => format!("Err({:?})", e),
+                                    }));
+                                    sim::note_progress();
+                                }
+                                let _ = tokio::time::timeout(std::time::Duration::from_secs(30), s.close()).await;
+                            });
+                        }
                         Ok(LinkEndpoint::Receiver(mut r)) => {
                             let idx: usize = if r.name() == "L0" { 0 } else { 1 };
                             let (del2, errs2) = (del.clone(), errs.clone());
@@ -150,6 +230,19 @@ pub async fn run_pair() {
             None => return,
         }
     }
+    let mut feed_rcv: Option<Receiver> = None;
+    if n_feed > 0 {
+        match sim::op("attach feed receiver", sim::in_group(1, Receiver::attach(&mut csess, "F", "q"))).await {
+            Some(Ok(r)) => feed_rcv = Some(r),
+            Some(Err(e)) => {
+                sim::violation("attach-failed", format!("{:?}", e));
+                return;
+            }
+            None => return,
+        }
+    }
+    let mut feed_taken = 0u64;
+    let mut plain_retired: Vec<u64> = Vec::new();
     let mut controllers: Vec<Option<Controller>> = Vec::new();
     for i in 0..n_ctrl {
         match sim::op("attach controller", sim::in_group(1, Controller::attach(&mut csess, format!("ctrl-{}", i)))).await {
@@ -176,7 +269,7 @@ pub async fn run_pair() {
             return;
         }
         let live: Vec<usize> = txns.iter().enumerate().filter(|(_, (m, t))| m.fate == TxnFate::Live && t.is_some()).map(|(i, _)| i).collect();
-        let op = choice(10);
+        let op = choice(if n_feed > 0 { 13 } else { 10 });
         match op {
             0 | 1 if live.len() < 3 => {
                 let alive: Vec<usize> = (0..n_ctrl).filter(|c| ctrl_alive[*c]).collect();
@@ -197,7 +290,7 @@ pub async fn run_pair() {
                             return;
                         }
                         sim::probe("declared");
-                        txns.push((TxnModel { controller: c, posts: Vec::new(), fate: TxnFate::Live }, Some(t)));
+                        txns.push((TxnModel { controller: c, posts: Vec::new(), retires: Vec::new(), fate: TxnFate::Live }, Some(t)));
                     }
                     Some(Err(e)) => {
                         sim::violation("declare-failed", format!("{:?}", e));
@@ -239,6 +332,48 @@ pub async fn run_pair() {
                     None => return,
                 }
             }
+            10 | 11 | 12 if feed_rcv.is_some() && feed_taken < n_feed => {
+                // take the next delivery of the feed link and retire it: under a live transaction
+                // (accepted, rejected or released) or plainly
+                let rcv = feed_rcv.as_mut().unwrap();
+                let d = match sim::op("recv on the feed link", rcv.recv::<Body<Value>>()).await {
+                    Some(Ok(d)) => d,
+                    Some(Err(e)) => {
+                        sim::violation("feed-recv-failed", format!("{:?}", e));
+                        return;
+                    }
+                    None => return,
+                };
+                feed_taken += 1;
+                let duid = msgs::uid_of(d.message()).unwrap_or(0);
+                if live.is_empty() || choice(4) == 0 {
+                    if let Some(Err(e)) = sim::op("plain accept on the feed link", rcv.accept(&d)).await {
+                        sim::violation("feed-dispose-failed", format!("{:?}", e));
+                        return;
+                    }
+                    plain_retired.push(duid);
+                } else {
+                    let ti = live[choice(live.len() as u32) as usize];
+                    let (m, t) = &mut txns[ti];
+                    let t = t.as_ref().unwrap();
+                    let (name, r) = match choice(3) {
+                        0 => ("Accepted", sim::op("transactional accept", t.accept(rcv, &d)).await),
+                        1 => ("Rejected", sim::op("transactional reject", t.reject(rcv, &d, None)).await),
+                        _ => ("Released", sim::op("transactional release", t.release(rcv, &d)).await),
+                    };
+                    match r {
+                        Some(Ok(())) => {
+                            m.retires.push((duid, name));
+                            sim::probe("retired-under-transaction");
+                        }
+                        Some(Err(e)) => {
+                            sim::violation("retire-failed", format!("transactional {} of delivery {} failed: {:?}", name, duid, e));
+                            return;
+                        }
+                        None => return,
+                    }
+                }
+            }
             5 => {
                 let link = choice(2) as usize;
                 uid += 1;
@@ -262,6 +397,9 @@ pub async fn run_pair() {
                         "delivered-before-discharge",
                         format!("messages {:?} posted under a transaction reached the receiving application before the discharge", early),
                     );
+                    return;
+                }
+                if !check_retirements(&feed, &txns[ti].0, "before") {
                     return;
                 }
                 sim::probe("isolation-checked");
@@ -291,11 +429,17 @@ pub async fn run_pair() {
                             return;
                         }
                     }
+                    if !check_retirements(&feed, &txns[ti].0, "committed") {
+                        return;
+                    }
                     sim::probe("commit-checked");
                 } else {
                     txns[ti].0.fate = TxnFate::RolledBack;
                     if !got.is_empty() {
                         sim::violation("delivered-after-rollback", format!("messages {:?} of a rolled-back transaction reached the application", got));
+                        return;
+                    }
+                    if !check_retirements(&feed, &txns[ti].0, "rolled-back") {
                         return;
                     }
                     sim::probe("rollback-checked");
@@ -359,6 +503,28 @@ pub async fn run_pair() {
         }
     }
     world::quiesce_pair(&pair.net).await;
+    for (m, _) in &txns {
+        let phase = match m.fate {
+            TxnFate::Committed => "committed",
+            TxnFate::RolledBack => "rolled-back",
+            _ => "abandoned",
+        };
+        if !check_retirements(&feed, m, phase) {
+            return;
+        }
+    }
+    for u in &plain_retired {
+        match feed_outcome_of(&feed, *u) {
+            Some(g) if g.contains("Accepted") => {}
+            other => {
+                sim::violation("plain-retirement-lost", format!("delivery {} was accepted outside any transaction; the sending application has {:?}", u, other));
+                return;
+            }
+        }
+    }
+    if let Some(r) = feed_rcv.take() {
+        let _ = sim::op("feed receiver close", r.close()).await;
+    }
     for s in senders {
         let _ = sim::op("sender close", s.close()).await;
     }
